@@ -2,7 +2,7 @@
 import itertools
 
 ID = 'C13'
-LEAN_MODULES = ['C13', 'C13b']
+LEAN_MODULES = ['C13', 'C13b', 'C13c']
 RULE = ('one case = a real datacake_rpc::Server on loopback with three services (A and B share the message type M1, C handles M1 and M2) and a sequence of '
         'add_service / remove_service events (each add installs a new instance, so replacement is observable); after EVERY event all four (service, message) '
         'pairs are sent over a fresh client channel AND over one long-lived connection per case and classified ok:<instance> / unavailable; quick: all sequences up to length 3 plus random ones up to 10; ' 'a second family has two service TYPES registered under ONE name, a four-message service and eight single-message bystanders (16 pairs called after every event); '
@@ -18,13 +18,13 @@ PAIRS = [('A', 'M1'), ('B', 'M1'), ('C', 'M1'), ('C', 'M2')]
 EVENTS = ['add A', 'add B', 'add C', 'remove A', 'remove B', 'remove C']
 # second family: D and E are two service TYPES registered under ONE name ("shared"), S has four message types,
 # P0..P7 are single-message bystanders (their hashed keys fall all over the key space)
-TYPES2 = ['D', 'E', 'S', 'G'] + ['P%d' % i for i in range(8)]      # G: a service whose name contains '<' and '>' (generic type)
-PAIRS2 = [('D', 'M1'), ('E', 'M2'), ('G', 'M1'), ('S', 'M1'), ('S', 'M2'), ('S', 'M3'), ('S', 'M4')] + [('P%d' % i, 'M1') for i in range(8)] + [('A', 'M1'), ('C', 'M2')]
+TYPES2 = ['D', 'E', 'S', 'G', 'H', 'I', 'J', 'K', 'L'] + ['P%d' % i for i in range(8)]      # G: a service whose name contains '<' and '>' (generic type); H: the same generic name with another parameter; I, J: `kv::store` / `kv_store`; K: `gen-M1-` (what a lossy sanitiser could turn G's name into); L: `pair<M1, M2>` (type_name of a two-parameter generic: a comma and a space)
+PAIRS2 = [('D', 'M1'), ('E', 'M2'), ('G', 'M1'), ('H', 'M1'), ('I', 'M1'), ('J', 'M1'), ('K', 'M1'), ('L', 'M1'), ('S', 'M1'), ('S', 'M2'), ('S', 'M3'), ('S', 'M4')] + [('P%d' % i, 'M1') for i in range(8)] + [('A', 'M1'), ('C', 'M2')]
 EVENTS2 = ['add %s' % t for t in TYPES2 + ['A', 'C']] + ['remove %s' % t for t in TYPES2 + ['A', 'C']]
 
 
 def removable(line):
-    return line.startswith(('add', 'remove'))
+    return line.startswith(('add', 'remove', 'uri'))
 
 
 def mk(idx, evs, pairs=None):
@@ -46,8 +46,57 @@ def mk(idx, evs, pairs=None):
     return lines
 
 
+NAME_PARTS = ['gen', 'pair', 'kv', 'store', 'Svc', 'M1', 'M2', 'u8', 'alloc::vec::Vec', 'datacake_rpc::Status', '<', '>', '<', '>', ', ', '-', '_', '::', ':', '/', '%', '%3C',
+              '%2F', ' ', '[', ']', '; ', '(', ')', '&', "'static", '*', '.', '~', '?', '#', '=', '+', '@', '!', '\\', '"', '{', '}', '|', '^', '`', 'é', 'ß', '€', '\t']
+
+
+def gen_name(rng):
+    return ''.join(rng.choice(NAME_PARTS) for _ in range(rng.range(0, 7)))
+
+
+def gen_uri(rng, idx):
+    """the request path for pairs of (service name, message name): arbitrary type-name-like strings; pairs built to collide under
+    a lossy or non-injective encoding (one part replaced by what it could be folded to, the `/` moved between the two names)"""
+    lines = ['case %d rpc' % idx]
+    hx = lambda x: x.encode('utf-8').hex() or '-'
+    for _ in range(rng.range(1, 6)):
+        sname, mname = gen_name(rng), gen_name(rng)
+        lines.append('uri %s %s' % (hx(sname), hx(mname)))
+        k = rng.below(6)
+        if k == 0:
+            for a, b in (('<', '-'), ('>', '-'), ('<', '%3C'), (', ', ','), ('::', '_'), ('/', '%2F'), (' ', '%20'), ('%', '%25')):
+                if a in sname:
+                    lines.append('uri %s %s' % (hx(sname.replace(a, b)), hx(mname)))
+        elif k == 1 and sname:
+            cut = rng.below(len(sname) + 1)
+            lines.append('uri %s %s' % (hx(sname[:cut]), hx(sname[cut:] + '/' + mname)))
+            lines.append('uri %s %s' % (hx(sname + '/' + mname[:1]), hx(mname[1:])))
+    lines.append('end')
+    return lines
+
+
+def oracle(case, impl):
+    """request paths: always valid for the HTTP client, and distinct (service, message) pairs never share one (within a case)"""
+    bad, seen = [], {}
+    for line, out in zip(case, impl):
+        t = line.split()
+        if t[0] != 'uri':
+            continue
+        if out.startswith(('panic', 'crash')):
+            bad.append('%s: %s' % (line, out)); continue
+        if out.endswith('INVALID'):
+            bad.append('%s: the request path is not a valid URI: the client cannot send to this service (%s)' % (line, bytes.fromhex(out.split()[1]).decode('utf-8', 'replace')))
+        path = out.split()[1] if len(out.split()) > 1 else ''
+        if path in seen and seen[path] != (t[1], t[2]):
+            bad.append('%s: same request path as `uri %s %s`: two different (service, message) pairs share a handler key' % (line, seen[path][0], seen[path][1]))
+        seen.setdefault(path, (t[1], t[2]))
+    return bad
+
+
 def generate(rng, tier):
     cases, idx = [], 0
+    for _ in range(dict(quick=300, thorough=20000, search=2000)[tier]):
+        cases.append(gen_uri(rng.fork(), 100000 + idx)); idx += 1
     maxlen = dict(quick=3, thorough=5, search=4)[tier]
     for ln in range(0, maxlen + 1):
         for evs in itertools.product(EVENTS, repeat=ln):
